@@ -9,6 +9,10 @@ def parseDec (s : String) : Option Dec :=
   | [c, e] => do pure ⟨← c.toInt?, ← e.toInt?⟩
   | _ => none
 
+def parseInts (s : String) : Option (List Int) := (s.splitOn ",").mapM (·.toInt?)
+def str? (h : String) : Option String := (unhexBytes h).bind fun bs => String.fromUTF8? (ByteArray.mk bs.toArray)
+def showInts (l : List Int) : String := ",".intercalate (l.map toString)
+
 /-- `I:5` `D:15e-1` `S:x6162` `B:true` `Q:5e0:x6d67` `O:tag` -/
 def parseVal (s : String) : Option Val :=
   match s.splitOn ":" with
@@ -19,6 +23,9 @@ def parseVal (s : String) : Option Val :=
   | ["B", "false"] => some (.bool false)
   | ["Q", d, u] => do pure (.quantity (← parseDec d) (← unhexBytes u))
   | ["O", t] => some (.other t)
+  | ["Da", l, c, i] => do pure (.date ⟨← parseInts c, ← parseInts i, ← str? l⟩)
+  | ["DT", l, c, i] => do pure (.dateTime ⟨← parseInts c, ← parseInts i, ← str? l⟩)
+  | ["T", l, c, i] => do pure (.time ⟨← parseInts c, ← parseInts i, ← str? l⟩)
   | _ => none
 
 def showDec (d : Dec) : String :=
@@ -31,6 +38,9 @@ def showVal : Val → String
   | .str s => "S:" ++ hexBytes s
   | .bool b => if b then "B:true" else "B:false"
   | .quantity d u => "Q:" ++ showDec d ++ ":" ++ hexBytes u
+  | .date t => "Da:" ++ hexBytes t.layout.toUTF8.toList ++ ":" ++ showInts t.comps ++ ":" ++ showInts t.inst
+  | .dateTime t => "DT:" ++ hexBytes t.layout.toUTF8.toList ++ ":" ++ showInts t.comps ++ ":" ++ showInts t.inst
+  | .time t => "T:" ++ hexBytes t.layout.toUTF8.toList ++ ":" ++ showInts t.comps ++ ":" ++ showInts t.inst
   | .other t => "O:" ++ t
 
 def showVals (l : List Val) : String := "[" ++ ",".intercalate (l.map showVal) ++ "]"
